@@ -99,6 +99,12 @@ def species_pool():
     return pool
 
 
+# species that are NOT in the tables: an unknown symbol, isotopes that are not tabulated
+UNTABULATED = [dict(el="Xx", A=0, ion=0, nuc="", alias="", aliasfull=False),
+               dict(el="C", A=15, ion=0, nuc="", alias="", aliasfull=False),
+               dict(el="Fe", A=70, ion=2, nuc="", alias="", aliasfull=False)]
+
+
 def no_abundance(el):
     return sum(ab for _, ab in PT_DATA[el][1].values()) == 0
 
